@@ -11,7 +11,8 @@ CONSTANTS
   Pads = {0, 1, 2, 3}
   Props = {0, 77}
   CtlFroms = {2, 3, 4, 5, 6, 7, 8, 9, 11, 13, 16, 19, 22, 26, 30, 34, 38}
-  CtlSizes = {1, 2, 3}
+  MemSizes = {1, 2, 3, 0}
+  LockBits = {1, 7, 9, 12, 17, 0}
   CtlTypes = {1, 2}
   TwoCtl = TRUE
   OldLens = {1, 5}
